@@ -95,4 +95,4 @@ def shrink(c):
 def static_obligations(work, tier):
     """the predictor is re-translated from /repo's source on every run (integer/rational mode, mpmath calls read as exact arithmetic)
     and proved equal to the model the theorems are about"""
-    return common.kernel_obligations(work, ID, "plotink/ebb_calc.py", ['move_dist_lt'], mode="zq")
+    return common.kernel_obligations(work, ID, "plotink/ebb_calc.py", ['move_dist_lt'], mode="zq") + common.rounding_obligation(work, ID, (103,))
